@@ -70,16 +70,28 @@ def build_input(spec):
 
 
 def dependency_of(spec, d):
+    """spec = None | (family, parameter[, style]); style says HOW the Dependency object is built:
+    'params' Dependency(fam, params=p) (default) | 'pos' Dependency(fam, p) | 'kw' Dependency(fam, corr=p / theta=p) |
+    'matrix' Dependency('gaussian', corr=<d x d matrix>) | 't' Dependency('t', corr=p[0], df=p[1]) | 'string' the str 'independence'"""
     from pyuncertainnumber.pba.dependency import Dependency
     if spec is None:
         return None
-    fam, par = spec
+    fam, par = spec[0], spec[1]
+    style = spec[2] if len(spec) > 2 else "params"
+    if style == "string":
+        return "independence"
     if fam == "independence":
         return Dependency("independence", k_dim=d)
-    if fam == "gaussian" and d != 2:
-        c = np.full((d, d), par)
+    if fam == "t":
+        return Dependency("t", corr=par[0], df=par[1])
+    if (fam == "gaussian" and d != 2) or style == "matrix":
+        c = np.full((d, d), float(par))
         np.fill_diagonal(c, 1.0)
         return Dependency("gaussian", corr=c)
+    if style == "pos":
+        return Dependency(fam, par)
+    if style == "kw":
+        return Dependency(fam, **{("corr" if fam == "gaussian" else "theta"): par})
     return Dependency(fam, params=par)
 
 
@@ -115,12 +127,17 @@ def run_mixed(case, seed_override=None, dep_obj=None):
                 logging.disable(logging.CRITICAL)
                 from pyuncertainnumber.propagation.p import Propagation
                 us = [pun.UncertainNumber.fromConstruct(v) if hasattr(pun.UncertainNumber, "fromConstruct") else v for v in vars_]
-                r, lv = Propagation(us, fcall, "slicing", interval_strategy=s).run(n_slices=case["k"], **kw)._construct, None
+                if case["method"] == "slicing":
+                    r, lv = Propagation(us, fcall, "slicing", interval_strategy=s).run(n_slices=case["k"], **kw)._construct, None
+                else:       # constructUN wraps the return value: no side effects; the levels are the ones seen by alpha_cut
+                    r = Propagation(us, fcall, "interval_monte_carlo", dependency=dep, interval_strategy=s).run(
+                        n_sam=case["n_sam"], random_state=seed, **kw)._construct
+                    lv = np.array(cap.alphas, dtype=float).reshape(-1, len(vars_))
             elif case["method"] == "slicing":
                 r = mixed_up.slicing(vars_, fcall, s, case["k"], **kw)
                 lv = None
             else:
-                r, lv = mixed_up.interval_monte_carlo(vars_, fcall, s, case["n_sam"], dependency=dep,
+                r, lv = mixed_up.interval_monte_carlo(vars_, fcall, s, case["n_sam"], dependency=None if isinstance(dep, str) else dep,
                                                       random_state=seed, side_effects=True, **kw)
             out["raw"], out["vars"] = r, vars_
             out["vars_snap"] = [snapshot_input(v) for v in vars_]
@@ -254,6 +271,24 @@ def gen_cases(ctx):
     add("entry-point", [("D", "gaussian", (0.0, 1.0)), ("I", 1.0, 2.0)], lin2, ("endpoints", None, None), "imc", n_sam=11, seed=13, dep=("gaussian", 0.3), via="MixedPropagation")
     add("entry-point", [("P", "uniform", (0.0, 1.0), (2.0, 3.0)), ("D", "uniform", (1.0, 2.0))], lin2, ("subinterval", "endpoints", 2), "imc", n_sam=6, seed=1, dep=None, via="MixedPropagation")
     add("entry-point", [("P", "normal", (0.0, 1.0), (1.0, 1.0)), ("I", 1.0, 2.0), ("D", "gaussian", (2.0, 0.5))], three, ("endpoints", None, None), "slicing", k=3, via="Propagation")
+    # API layers x how the Dependency object was built: the levels must be the sample of THAT dependency
+    dep_specs = [("gaussian", 0.9, "pos"), ("gaussian", 0.9, "params"), ("gaussian", 0.9, "kw"), ("gaussian", -0.6, "matrix"),
+                 ("frank", 8.0, "kw"), ("frank", 8.0, "pos"), ("clayton", 2.0, "kw"), ("gumbel", 2.0, "kw"), ("t", (-0.8, 4), "kw"),
+                 ("independence", None), ("independence", None, "string"), None]
+    api_inputs = [[("P", "normal", (0.0, 1.0), (1.0, 1.0)), ("D", "gaussian", (1.0, 0.5))],
+                  [("D", "uniform", (1.0, 2.0)), ("I", 1.0, 2.0)],
+                  [("P", "uniform", (0.0, 1.0), (2.0, 3.0)), ("P", "normal1", (0.0, 0.5), (1.0,))]]
+    for j, dsp in enumerate(dep_specs):
+        for via in ("MixedPropagation", "Propagation", None):
+            if via is None and dsp is not None and len(dsp) > 2 and dsp[2] == "string":
+                continue
+            add("api-layer", api_inputs[j % 3], lin2 if j % 2 else ("sub", ("mul", ("c", 2), ("v", 0)), ("v", 1)),
+                (("direct", None, None), ("endpoints", None, None), ("subinterval", "endpoints", 2))[j % 3], "imc",
+                n_sam=(8, 15, 30)[j % 3], seed=100 + j, dep=dsp, via=via, fstyle=("object", "closure", "lambda")[j % 3])
+    add("api-layer", [("P", "normal", (0.0, 1.0), (1.0, 1.0)), ("D", "gaussian", (1.0, 0.5)), ("I", 0.5, 1.5)], three, ("endpoints", None, None), "imc",
+        n_sam=12, seed=77, dep=("gaussian", 0.5, "matrix"), via="MixedPropagation")
+    add("api-layer", [("P", "normal", (0.0, 1.0), (1.0, 1.0)), ("D", "gaussian", (1.0, 0.5)), ("I", 0.5, 1.5)], three, ("direct", None, None), "imc",
+        n_sam=12, seed=78, dep=("gaussian", 0.5, "matrix"), via="Propagation")
     # sequences: different response functions with one __qualname__ on the same inputs, one after the other
     seq_inputs = [("P", "normal", (0.0, 1.0), (1.0, 1.0)), ("I", 1.0, 2.0)]
     for fstyle in ("closure", "lambda"):
@@ -289,8 +324,11 @@ def gen_cases(ctx):
             if rr[0] != "ok" or not all(math.isfinite(v) and abs(v) < 1e9 for v in rr[1:]):
                 continue
             fstyle = ("object", "closure", "lambda")[made % 3]
+            ks = set(i[0] for i in inputs)
+            mixed_ok = ("P" in ks) or ({"I", "D"} <= ks)
+            via = (None, "MixedPropagation", "Propagation", None)[made % 4] if mixed_ok else None
             if which == "slicing":
-                add("slicing-" + kp, inputs, e, cf, "slicing", k=choose_k(d, cf), fstyle=fstyle)
+                add("slicing-" + kp, inputs, e, cf, "slicing", k=choose_k(d, cf), fstyle=fstyle, via=via)
             else:
                 per = 1 if cf[0] != "subinterval" else max(cf[2], 1) ** d
                 n_sam = rng.choice([1, 2, 5, 17, 40, 100])
@@ -302,7 +340,9 @@ def gen_cases(ctx):
                     fam = None
                 dep = None if fam is None else (fam, {"independence": None, "gaussian": rng.choice([-0.5, 0.3, 0.8] if d == 2 else [-0.3, 0.3, 0.8]),
                                                       "frank": rng.choice([2.0, 5.0]), "clayton": rng.choice([1.0, 3.0])}[fam])
-                add("imc-" + kp, inputs, e, cf, "imc", n_sam=n_sam, seed=rng.randint(0, 10 ** 6), dep=dep, fstyle=fstyle)
+                if dep is not None and dep[0] in ("gaussian", "frank", "clayton") and d == 2:
+                    dep = (dep[0], dep[1], ("params", "kw", "pos")[made % 3])
+                add("imc-" + kp, inputs, e, cf, "imc", n_sam=n_sam, seed=rng.randint(0, 10 ** 6), dep=dep, fstyle=fstyle, via=via)
             made += 1
     return cases
 
@@ -322,7 +362,10 @@ def own_cut(pv, left, right, alpha):
 def feat(case, what, impl=None):
     s, st, n = case["cf"]
     kinds = "".join(sorted(set(i[0] for i in case["inputs"])))
+    dep = case.get("dep")
     return {"call": case["method"], "strategy": s, "style": st, "n_sub": n, "d": len(case["inputs"]), "kinds": kinds,
+            "via": case.get("via") or "function", "dep_family": dep[0] if dep else None,
+            "dep_style": (dep[2] if len(dep) > 2 else "params") if dep else None,
             "what": what, "symptom": ("raises:" + impl[1]) if impl is not None and impl[0] == "err" else "value"}
 
 
@@ -635,11 +678,17 @@ def oracle(ctx, c, o, pv, tol):
                 ctx.fail(feat(c, "reported-levels-not-cut"), cj(c, reported=lv[:3].tolist(), cut=[list(r) for r in rows[:3]]),
                          "the probability levels reported by interval Monte Carlo are not the ones whose alpha-cuts were propagated")
             # ... and they are the sample of THIS dependency for THIS seed (statsmodels called directly)
-            dep_ref = dependency_of(c["dep"] if c["dep"] is not None else ("independence", None), d)
-            ref_lv = np.atleast_2d(dep_ref.copula.rvs(c["n_sam"], random_state=c["seed"]))
-            if ref_lv.shape != lv.shape or not np.array_equal(ref_lv, lv):
-                ctx.fail(feat(c, "levels-not-copula-sample"), cj(c, reported=lv[:2].tolist(), expected=ref_lv[:2].tolist()),
-                         "the probability levels are not the sample of the given dependency structure for the given seed")
+            indep = c["dep"] is None or (len(c["dep"]) > 2 and c["dep"][2] == "string")
+            dep_ref = dependency_of(("independence", None) if indep else c["dep"], d)
+            refs = [("statsmodels copula.rvs", np.atleast_2d(dep_ref.copula.rvs(c["n_sam"], random_state=c["seed"]))),
+                    ("u_sample of an identically built Dependency", np.atleast_2d(dep_ref.u_sample(c["n_sam"], random_state=c["seed"])))]
+            if o.get("dep_obj") is not None and not isinstance(o["dep_obj"], str):
+                refs.append(("u_sample of THE Dependency object that was passed", np.atleast_2d(o["dep_obj"].u_sample(c["n_sam"], random_state=c["seed"]))))
+            for name, ref_lv in refs:
+                if ref_lv.shape != lv.shape or not np.array_equal(ref_lv, lv):
+                    ctx.fail(feat(c, "levels-not-copula-sample"), cj(c, reference=name, reported=lv[:2].tolist(), expected=ref_lv[:2].tolist()),
+                             f"the probability levels used are not the sample of the given dependency structure for the given seed ({name})")
+                    break
         # reproducibility: same seed and dependency -> identical p-box and levels
         o2 = run_mixed(c)
         ctx.evaluations += 1
